@@ -457,6 +457,18 @@ def gen_c11(rnd, n, thorough=False):
             lines.append("clisumdiff " + common)
         lines.append("clisum base=s item=%s src=%s from=%s until=%s archive=%d header=1" % (itempat, srcpat, frm, until, arch))
         cases.append({'id': 'c11-%d' % c, 'lines': lines, 'tags': {'layout': lname, 'dest': destkind, 'files': nfiles, 'window': wk}})
+        if c == 2:
+            # several items while the sources are being written: the first item's destination is kept
+            # locked for two clock seconds, meanwhile a source of the second item receives a point; the
+            # default window of the second item ends at ITS clock
+            l2 = CLI_LAYOUTS[rnd.pick(['two_1s', 'three_1s'])]
+            ll = item_tree(rnd, l2, 2, 0x3f000000, ['i1', 'i2'], 2, 0.6)
+            ll += ["create d/i1/sum.wsp %s m 2 x 3f000000" % fmt_layout(l2), "sync d/i1/sum.wsp", "drop d/i1/sum.wsp"]
+            cm = "base=s item=* src=*.wsp destbase=d dest=sum.wsp from=0 until=0 archive=-1"
+            ll.append("clisumcopy " + cm + " m=2 x=3f000000 layout=%s live=s/i2/f1.wsp hold=d/i1/sum.wsp" % lay_csv(l2))
+            observe_all(ll, 'd/i2/sum.wsp', l2, until='@+9', now='@+9')
+            ll.append("clisumdiff " + cm)
+            cases.append({'id': 'c11-%d-live' % c, 'lines': ll, 'tags': {'layout': 'live', 'dest': 'items_live_source', 'files': 2, 'window': 'default'}})
     return cases
 
 
@@ -479,24 +491,25 @@ def gen_c18(rnd, n, thorough=False):
         layout = CLI_LAYOUTS[lname]
         k = len(layout)
         m, xff = rnd.pick(METHODS), rnd.pick(XFF_VALID)
-        lines = fill_ops(rnd, 's/a.wsp', layout, m, xff, density=rnd.pick([0.2, 0.7, 1.0]))
+        vname = rnd.pick(['a.wsp', 'a.wsp', 'cpu+io.wsp', 'rx&tx.wsp', 'q=1.wsp'])
+        lines = fill_ops(rnd, 's/' + vname, layout, m, xff, density=rnd.pick([0.2, 0.7, 1.0]))
         future = rnd.chance(0.3)
         if future:
             # points dated after the clock (the batch API stores them, one lap ahead): view shows the
             # slot of the window's time as empty, view-raw shows the point under its own time
             S0, N0 = layout[0]
             fp = [("@+%d" % (rnd.randint(1, N0 - 1) * S0), cvalue(rnd, False)) for _ in range(rnd.randint(1, 4))]
-            lines = lines[:-2] + ["many s/a.wsp 0 @ %d %s" % (len(fp), " ".join("%s %016x" % tv for tv in fp))] + lines[-2:]
+            lines = lines[:-2] + ["many s/%s 0 @ %d %s" % (vname, len(fp), " ".join("%s %016x" % tv for tv in fp))] + lines[-2:]
         for _ in range(rnd.randint(2, 5)):
             wk, frm, until = window(rnd, layout)
             arch = rnd.pick([-1, -1] + list(range(k)) + [k, -2])
             if rnd.chance(0.5):
-                lines.append("cliview src=s:a.wsp from=%s until=%s archive=%d header=%d" % (frm, until, arch, rnd.pick([0, 1])))
+                lines.append("cliview src=s:%s from=%s until=%s archive=%d header=%d remote=%d" % (vname, frm, until, arch, rnd.pick([0, 1]), rnd.pick([0, 0, 1])))
             else:
-                lines.append("cliviewraw src=s:a.wsp from=%s until=%s archive=%d header=%d sort=%d" % (frm, until, arch, rnd.pick([0, 1]), rnd.pick([0, 1])))
+                lines.append("cliviewraw src=s:%s from=%s until=%s archive=%d header=%d sort=%d remote=%d" % (vname, frm, until, arch, rnd.pick([0, 1]), rnd.pick([0, 1]), rnd.pick([0, 0, 1])))
         a = rnd.randrange(k)
-        lines.append("cliview src=s:a.wsp from=0 until=0 archive=%d header=1" % a)
-        lines.append("cliviewraw src=s:a.wsp from=0 until=0 archive=%d header=0 sort=1" % a)
+        lines.append("cliview src=s:%s from=0 until=0 archive=%d header=1 remote=%d" % (vname, a, rnd.pick([0, 1])))
+        lines.append("cliviewraw src=s:%s from=0 until=0 archive=%d header=0 sort=1 remote=%d" % (vname, a, rnd.pick([0, 1])))
         cases.append({'id': 'c18-%d' % c, 'lines': lines, 'tags': {'layout': lname}})
     return cases
 
@@ -534,6 +547,12 @@ def gen_c20(rnd, n, thorough=False):
         if len(lines) == 2 and lines[-1].startswith('hdrof'):
             observe_all(lines, 'g/x.wsp', layout, until='@+3', now='@+3')
         cases.append({'id': 'c20-%d' % c, 'lines': lines, 'tags': {'levels': len(layout), 'fill': fill, 'max': mx}})
+    # layouts whose file is an exact number of mebibytes (and one slot more / less), created without fill:
+    # the file has the length its header describes and can be opened
+    for j, lay in enumerate([[(1, 87379)], [(1, 43200), (60, 44178)], [(1, 87380)]] if not thorough else [[(1, 87379)], [(1, 43200), (60, 44178)], [(1, 87380)], [(1, 87378)], [(1, 174759)]]):
+        gl = ["cligenerate dest=g/m%d.wsp m=2 x=3f000000 layout=%s max=10 fill=0" % (j, lay_csv(lay)), "hdrof g/m%d.wsp" % j,
+              "dfetch g/m%d.wsp 0 @-5 @ @" % j]
+        cases.append({'id': 'c20-mib-%d' % j, 'lines': gl, 'tags': {'levels': len(lay), 'fill': 0, 'max': 10, 'size': 'MiB'}})
     return cases
 
 
@@ -652,6 +671,15 @@ def gen_c12(rnd, n, thorough=False):
                                                                             rnd.pick(['0', '@-30', '1']), rnd.pick(['0', '@-3', '@+5'])))
         cases.append({'id': 'c12-%d' % c, 'lines': lines, 'tags': {'layout': lname}})
     cases.append({'id': 'c12-newline', 'lines': ['clinewline'], 'tags': {'layout': 'newline_in_name'}})
+    # the same requests in flight at once (the served file is kept locked while they arrive), among
+    # them the same sum and view asked with different clocks: each is answered as it is alone
+    for j in range(2):
+        lay = CLI_LAYOUTS[rnd.pick(['two_1s', 'three_2s'])]
+        fl = []
+        for q in range(3):
+            fl += fill_ops(rnd, 's/i1/f%d.wsp' % q, lay, 2, 0x3f000000, density=0.7, inconsistent=False)
+        fl.append('conhttp s/i1/f0.wsp %d @' % rnd.randint(3, 6))
+        cases.append({'id': 'c12-inflight-%d' % j, 'lines': fl, 'tags': {'layout': 'inflight'}})
     # answers of more than a megabyte (a long archive viewed over its whole retention, its raw dump)
     N = 140000 if not thorough else 200000
     offs = sorted(set([0, 1, 2, N - 2, N - 1, N // 2] + [rnd.randrange(N) for _ in range(5)]))
@@ -809,6 +837,25 @@ def gen_c16(rnd, n, thorough=False):
         observe_all(lines, 'd/a.wsp', layout)
         lines += ["clidiff src=s:a.wsp dest=d:a.wsp from=0 until=0 archive=-1"]
         cases.append({'id': 'c16-cascade-%d' % j, 'lines': lines, 'tags': {'layout': lname, 'src': 'ok', 'dest': 'cascade', 'sub': {'copy': 1, 'diff': 1}}})
+    # diff over several files: one differing (or missing) pair anywhere makes the whole run report it
+    for j in range(2):
+        layout = CLI_LAYOUTS[rnd.pick(['two_1s', 'single'])]
+        gl = []
+        names = ['x/a.wsp', 'y/a.wsp', 'y/b.wsp']
+        odd = names[j]                       # the first or the middle one
+        for nm in names:
+            f = fill_ops(rnd, 'g/' + nm, layout, 2, 0x3f000000, density=0.5, inconsistent=False)
+            gl += f
+            cp = copy_of(f, 'g/' + nm, 'h/' + nm)
+            if nm == odd:
+                if rnd.chance(0.5):
+                    cp = cp[:-2] + ["many h/%s 0 @ 1 @-%d %016x" % (nm, layout[0][0], fbits(555.0))] + cp[-2:]
+                else:
+                    cp = []                  # missing on the destination side
+            gl += cp
+        gl.append("clidiff src=g:*/*.wsp dest=h: from=0 until=0 archive=-1")
+        gl.append("cliexit src=g:*/*.wsp dest=h: from=0 until=0 archive=-1")
+        cases.append({'id': 'c16-globdiff-%d' % j, 'lines': gl, 'tags': {'layout': 'glob', 'src': 'ok', 'dest': 'glob', 'sub': {'diff': 2}}})
     # every invocation starts at the command line: Parse of each subcommand (Model/Args.v)
     cases += gen_args(rnd, max(n // 4, 10))
     return cases
